@@ -22,7 +22,7 @@ ASSUMPTIONS = [
 ]
 MONITORS = ("independent walk + lstat/readlink/inode of the workspace; audit-hook recorder proving zero filesystem mutations in "
             "workspace and cache during the second checkout; byte snapshot of the cache; link record checked through get_unused_links")
-REQUIRED_COUNTERS = ["workspace_path_relative_to_cwd", "renamed_files_between_versions", "state_reused_after_close", "priors_with_dangling_symlink", "priors_linked_into_another_store", "workspace_path_spelled_non_canonically", "priors_with_interrupted_copy_leftover", "dir_removed_between_checkouts", "priors_with_foreign_hardlinks", "sequences", "second_checkouts_audited", "relinks_checked", "files_link_type_checked", "cache_snapshots_compared",
+REQUIRED_COUNTERS = ["stores_with_tmp_dir_on_another_filesystem", "sequences_with_a_callers_progress_callback", "workspace_path_relative_to_cwd", "renamed_files_between_versions", "state_reused_after_close", "priors_with_dangling_symlink", "priors_linked_into_another_store", "workspace_path_spelled_non_canonically", "priors_with_interrupted_copy_leftover", "dir_removed_between_checkouts", "priors_with_foreign_hardlinks", "sequences", "second_checkouts_audited", "relinks_checked", "files_link_type_checked", "cache_snapshots_compared",
                      "link_records_checked", "pair/copy->hardlink", "pair/hardlink->symlink", "pair/symlink->copy", "pair/copy->symlink",
                      "pair/hardlink->copy", "pair/symlink->hardlink", "store/local", "store/base", "single_file_cases"]
 
@@ -50,7 +50,11 @@ def run_shard(ctx):
             croot = os.path.join(d, "cache")
             state = env.mk_state(d, os.path.join(d, "tmp")) if use_state else None
             cfg_types = ["reflink", "copy"] if configured == "reflink" else [configured]
-            odb = env.odb_of_class(cls, croot, state=state, type=cfg_types)
+            # the store may keep its scratch/index directory (tmp_dir) on another filesystem than its objects and the workspace
+            other_mount_tmp = ctx.fresh("storetmp", disk=True) if rng.random() < 0.15 else None
+            if other_mount_tmp:
+                res.count("stores_with_tmp_dir_on_another_filesystem")
+            odb = env.odb_of_class(cls, croot, state=state, type=cfg_types, **({"tmp_dir": other_mount_tmp} if other_mount_tmp else {}))
             odb_prior = env.odb_of_class(cls, croot, state=state, type=[existing])
             pool = [gen.small_content(rng) for _ in range(3)] + [b""]
             if single:
@@ -209,12 +213,24 @@ def run_shard(ctx):
                                       detail={**cfg, "file": "/".join(k), "len": len(data)})
                         break
 
+            # the caller may follow the progress through a callback of its own
+            own_progress = rng.random() < 0.3
+            if own_progress:
+                res.count("sequences_with_a_callers_progress_callback")
+
+            def progress():
+                if not own_progress:
+                    return {}
+                from fsspec.callbacks import Callback
+
+                return {"progress_callback": Callback()}
+
             # 1. forced checkout (or, in a third of the cases, a relinking checkout straight from the prior state)
             direct_relink = rng.random() < 0.3
             cfg["direct_relink"] = direct_relink
             if direct_relink:
                 res.count("direct_relink_from_prior")
-                checkout(wsp, fs, target, odb, force=True, relink=True, state=state)
+                checkout(wsp, fs, target, odb, **progress(), force=True, relink=True, state=state)
                 if not check_bytes("relink-from-prior"):
                     return
                 check_links("relink-from-prior")
@@ -225,14 +241,14 @@ def run_shard(ctx):
 
                     _s0, _m0, old = build(odb, ws, fs, "md5", dry_run=True)
                     res.count("old_given")
-                ret1 = checkout(wsp, fs, target, odb, force=True, state=state, old=old)
+                ret1 = checkout(wsp, fs, target, odb, **progress(), force=True, state=state, old=old)
                 if not check_bytes("forced-checkout"):
                     return
                 if state is not None and ret1 is not None:
                     check_link_record(res, state, ws, fs, case, cfg, "forced-checkout")
             # 2. second checkout: nothing to do, nothing touched
             with Recorder([ws, croot]) as rec:
-                ret2 = checkout(wsp, fs, target, odb, force=rng.random() < 0.5, state=state)
+                ret2 = checkout(wsp, fs, target, odb, **progress(), force=rng.random() < 0.5, state=state)
             res.count("second_checkouts_audited")
             if ret2 is not None:
                 res.violation("second-checkout-not-noop/return-value", f"second checkout returned {ret2!r}", case=case, detail=cfg)
@@ -240,14 +256,14 @@ def run_shard(ctx):
                 res.violation("second-checkout-not-noop/filesystem-mutation", f"second checkout issued {rec.events[:3]}", case=case, detail=cfg)
             check_bytes("second-checkout")
             # 3. relinking checkout -> configured type everywhere
-            checkout(wsp, fs, target, odb, force=True, relink=True, state=state)
+            checkout(wsp, fs, target, odb, **progress(), force=True, relink=True, state=state)
             res.count("relinks_checked")
             if check_bytes("relink"):
                 check_links("relink")
             if state is not None:
                 check_link_record(res, state, ws, fs, case, cfg, "relink")
             # 4. a second relinking checkout keeps bytes and types
-            checkout(wsp, fs, target, odb, force=True, relink=True, state=state)
+            checkout(wsp, fs, target, odb, **progress(), force=True, relink=True, state=state)
             check_bytes("second-relink")
             # 5. the user removes a sub-directory; checking out the same path again (same process) restores it
             subdirs = sorted({k[:i] for k in T for i in range(1, len(k))}) if not single else []
@@ -256,7 +272,7 @@ def run_shard(ctx):
 
                 res.count("dir_removed_between_checkouts")
                 shutil.rmtree(os.path.join(ws, *rng.choice(subdirs)))
-                checkout(wsp, fs, target, odb, force=True, relink=rng.random() < 0.3, state=state)
+                checkout(wsp, fs, target, odb, **progress(), force=True, relink=rng.random() < 0.3, state=state)
                 check_bytes("checkout-after-dir-removed")
             # cache bytes
             res.count("cache_snapshots_compared")
@@ -269,6 +285,8 @@ def run_shard(ctx):
                 state.close()
             env.reset_staging()
             ctx.drop(d)
+            if other_mount_tmp:
+                ctx.drop(other_mount_tmp)
 
         def one_in_place(one=one):
             try:
